@@ -16,6 +16,15 @@
 (*       | "notrun"  the recorder gave up on the universe after too many   *)
 (*                   timeouts and never started this input (no spec action:*)
 (*                   nothing was observed, so nothing is accepted)         *)
+(*       | "next"    (histories) the previous run is finished, the caller  *)
+(*                   compiles the next program of the history in the same  *)
+(*                   thread: SyltPipeline!Again                            *)
+(* A record of a HISTORY (family hist: several programs compiled one after *)
+(* the other in one thread) carries the events of all its runs, separated  *)
+(* by "next", and a field solo = the verdict [r, st, n] of every program   *)
+(* compiled alone in a fresh thread.  Every run must be a complete         *)
+(* behaviour AND return the verdict of the run alone (HistoryFree); all    *)
+(* programs of the history must have been run.                             *)
 (* Record k is validated independently (Init ranges over all k).  Events   *)
 (* are consumed one per step by the matching SyltPipeline action; ParseOk  *)
 (* is the only unobserved step (the public API returns once).  A record    *)
@@ -38,9 +47,10 @@ EXTENDS SyltPipeline, Json, IOUtils
 
 VARIABLES k,      \* index of the record being validated
           j,      \* index of the next event of that record
-          st      \* "run" | "ok" | "fail"
+          st,     \* "run" | "ok" | "fail"
+          s       \* which run of the record is being validated (1 unless the record is a history)
 
-tvars == <<phase, input, stage, errs, bytes, rendered, k, j, st>>
+tvars == <<phase, input, stage, errs, bytes, rendered, k, j, st, s>>
 
 Rec == ndJsonDeserialize(IOEnv.TRACE)
 N == Len(Rec)
@@ -53,9 +63,13 @@ Frame == CASE Universe \in {"tok20.top", "tok31.top"}   -> "top"
            [] OTHER                                      -> "raw"
 MaxTokLen == IF IsTok THEN atoi(IOEnv.MAXLEN) ELSE 0
 \* UNIVERSE = fam.<family>: the index-addressed families of structured programs (FamCase)
-FamUniverses == {"fam.nest", "fam.nestraw", "fam.nestsolo", "fam.place", "fam.cyc", "fam.selfty", "fam.text", "fam.entry"}
+FamUniverses == {"fam.nest", "fam.nestraw", "fam.nestsolo", "fam.place", "fam.cyc", "fam.selfty", "fam.text", "fam.entry", "fam.lit", "fam.hist"}
 IsFam == Universe \in FamUniverses
 FamName == SubSeq(Universe, 5, Len(Universe))
+IsHistFam == IsFam /\ FamName \in HistFamilies
+\* a record of a history (also when replayed outside its family): it carries the verdicts of its programs compiled alone
+IsHist(q) == "solo" \in DOMAIN Rec[q]
+NRuns(q) == IF IsHist(q) THEN Len(Rec[q].solo) ELSE 1
 Total == IF IsTok THEN NumTokenStrings(Alpha, MaxTokLen) ELSE IF IsFam THEN FamSize(FamName) ELSE N
 
 \* the text record q must carry, as derived by TLC
@@ -65,10 +79,17 @@ UniverseOK(q) ==
     /\ Rec[q].idx = Rec[1].idx + q - 1
     /\ Rec[q].idx >= 1 /\ Rec[q].idx <= Total
     /\ IsTok => Rec[q].input = TokenTextAt(Alpha, Rec[q].idx, Frame)
-    /\ IsFam => LET c == FamCase(FamName, Rec[q].idx) IN
+    /\ (IsFam /\ ~IsHistFam) =>
+                LET c == FamCase(FamName, Rec[q].idx) IN
                 /\ Rec[q].id = c.id
                 /\ Rec[q].input = FamText(c)
                 /\ Rec[q].nostd = c.nostd
+                /\ ~IsHist(q)
+    /\ IsHistFam =>
+                LET c == FamCase(FamName, Rec[q].idx) IN
+                /\ Rec[q].id = c.id
+                /\ Rec[q].input = HistText(c)
+                /\ IsHist(q) /\ Len(Rec[q].solo) = Len(c.steps)
 
 ---------------------------------------------------------------------------
 NE == Len(Rec[k].ev)
@@ -81,9 +102,13 @@ TraceInit ==
     /\ (k = 1 => PrintT(<<"UNIVERSE", ToJson([universe |-> Universe, total |-> Total, first |-> Rec[1].idx,
                                              last |-> Rec[N].idx, records |-> N])>>))
     /\ Init
-    /\ j = 1 /\ st = "run"
+    /\ j = 1 /\ st = "run" /\ s = 1
 
-Consume == j' = j + 1 /\ UNCHANGED <<k, st>>
+Consume == j' = j + 1 /\ UNCHANGED <<k, st, s>>
+
+\* histories: the verdict this run has when its program is compiled alone, as recorded
+Alone == [r |-> Rec[k].solo[s].r, st |-> Rec[k].solo[s].st, n |-> Rec[k].solo[s].n]
+AgreesWithAlone == IsHist(k) => (s <= NRuns(k) /\ Ev.r = Alone.r /\ Ev.st = Alone.st /\ Ev.n = Alone.n)
 
 TraceStart ==
     /\ st = "run" /\ HasEv /\ Ev.e = "start"
@@ -94,18 +119,22 @@ TraceStart ==
 TraceParseOk ==
     /\ st = "run" /\ HasEv /\ Ev.e = "ret" /\ Ev.st = "compile"
     /\ ParseOk
-    /\ UNCHANGED <<k, j, st>>
+    /\ UNCHANGED <<k, j, st, s>>
 
 TraceRetErr ==
     /\ st = "run" /\ HasEv /\ Ev.e = "ret" /\ Ev.r = "err"
+    /\ AgreesWithAlone
     /\ \/ Ev.st = "parse" /\ ParseErr(Ev.n)
        \/ Ev.st = "compile" /\ CompileErr(Ev.n, Ev.len)
     /\ Consume
+    /\ IsHist(k) => HistoryFree(Alone)'              \* (holds by AgreesWithAlone; stated in the protocol's own terms)
 
 TraceRetOk ==
     /\ st = "run" /\ HasEv /\ Ev.e = "ret" /\ Ev.r = "ok"
+    /\ AgreesWithAlone
     /\ CompileOk(Ev.len)
     /\ Consume
+    /\ IsHist(k) => HistoryFree(Alone)'              \* (holds by AgreesWithAlone; stated in the protocol's own terms)
 
 TraceRender ==
     /\ st = "run" /\ HasEv /\ Ev.e = "render"
@@ -118,16 +147,23 @@ TraceFinish ==
     /\ Finish
     /\ Consume
 
-TraceStep == TraceStart \/ TraceParseOk \/ TraceRetErr \/ TraceRetOk \/ TraceRender \/ TraceFinish
+\* histories: the run is finished, the caller compiles the next program in the same thread
+TraceAgain ==
+    /\ st = "run" /\ HasEv /\ Ev.e = "next" /\ IsHist(k) /\ s < NRuns(k)
+    /\ Again
+    /\ j' = j + 1 /\ s' = s + 1 /\ UNCHANGED <<k, st>>
+
+TraceStep == TraceStart \/ TraceParseOk \/ TraceRetErr \/ TraceRetOk \/ TraceRender \/ TraceFinish \/ TraceAgain
 
 \* a complete behaviour: all events consumed and the run finished
 TraceAccept ==
-    /\ st = "run" /\ ~HasEv /\ Complete
+    /\ st = "run" /\ ~HasEv /\ Complete /\ s = NRuns(k)
     /\ st' = "ok"
-    /\ UNCHANGED <<phase, input, stage, errs, bytes, rendered, k, j>>
+    /\ UNCHANGED <<phase, input, stage, errs, bytes, rendered, k, j, s>>
 
 Why == IF ~HasEv THEN "truncated"
        ELSE IF Ev.e \in {"panic", "render_panic", "abort", "timeout", "notrun"} THEN Ev.e
+       ELSE IF Ev.e = "ret" /\ ~AgreesWithAlone THEN "history-dependent"
        ELSE IF Ev.e = "ret" /\ Ev.r = "err" /\ Ev.n = 0 THEN "err-without-errors"
        ELSE IF Ev.e = "ret" /\ Ev.r = "ok" /\ Ev.len = 0 THEN "ok-without-output"
        ELSE IF Ev.e = "render" /\ Ev.len = 0 THEN "empty-rendering"
@@ -137,11 +173,11 @@ Why == IF ~HasEv THEN "truncated"
 TraceReject ==
     /\ st = "run"
     /\ ~ENABLED TraceStep
-    /\ ~(~HasEv /\ Complete)
+    /\ ~(~HasEv /\ Complete /\ s = NRuns(k))
     /\ st' = "fail"
-    /\ PrintT(<<"REJECT", ToJson([rec |-> k, idx |-> Rec[k].idx, id |-> Rec[k].id, ev |-> j, phase |-> phase,
+    /\ PrintT(<<"REJECT", ToJson([rec |-> k, idx |-> Rec[k].idx, id |-> Rec[k].id, ev |-> j, run |-> s, phase |-> phase,
                                   errs |-> errs, rendered |-> Len(rendered), why |-> Why])>>)
-    /\ UNCHANGED <<phase, input, stage, errs, bytes, rendered, k, j>>
+    /\ UNCHANGED <<phase, input, stage, errs, bytes, rendered, k, j, s>>
 
 TraceNext == TraceStep \/ TraceAccept \/ TraceReject
 
@@ -153,7 +189,7 @@ TraceInv == /\ TypeOK /\ FailedHasErrors /\ OkHasBytes /\ RenderedSane
             /\ FinishedIsOutcome /\ UndecidedIsBlank
 
 \* accepted means complete; rejected means not complete or not consumable
-AcceptedIsComplete == st = "ok" => Complete /\ j = NE + 1 /\ (Succeeded \/ Rejected)
+AcceptedIsComplete == st = "ok" => Complete /\ j = NE + 1 /\ (Succeeded \/ Rejected) /\ s = NRuns(k)
 
 \* the trace machine never gets stuck silently
 TraceTotal == st = "run" => ENABLED TraceNext
